@@ -3,6 +3,12 @@
 // Contracts for package message, read by /verif's govc (see /verif/DESIGN.md). Comment-only.
 package message
 
+import (
+	"bytes"
+
+	"github.com/datastax/go-cassandra-native-protocol/primitive"
+)
+
 //@ func decodeRowsMetadata
 //@   prop C04
 //@   ensures nonnil: err == nil ==> metadata != nil
@@ -85,3 +91,178 @@ package message
 //@   prop C03
 //@   assigns wstream(dest)
 //@   assumes len: result == nil ==> written(dest) == old(written(dest)) + encLen(self, msg, version)
+
+// Query options are encoded in place by QUERY, EXECUTE (and BATCH has its own copy); both functions accept nil options.
+//@ func EncodeQueryOptions
+//@   inline
+//@   nilable options
+//@ func LengthOfQueryOptions
+//@   inline
+//@   nilable options
+
+// NOT under proof: the BATCH, RESULT, REGISTER, EVENT and ERROR codecs (their length/encode loops over children,
+// rows, reason maps and re-built string lists need fold invariants that are not written yet).
+
+// One lemma per message codec: EncodedLength and Encode are executed on the same message and version; whenever both
+// succeed, the number of bytes written equals the announced length. Both bodies are the real ones.
+
+func lemmaLenAuthChallenge(c *authChallengeCodec, msg Message, version primitive.ProtocolVersion) bool {
+	buf := &bytes.Buffer{}
+	if e2 := c.Encode(msg, buf, version); e2 != nil {
+		return true
+	}
+	n, e1 := c.EncodedLength(msg, version)
+	return e1 != nil || buf.Len() == n
+}
+
+//@ func lemmaLenAuthChallenge
+//@   prop C03
+//@   ensures agree: result
+
+func lemmaLenAuthResponse(c *authResponseCodec, msg Message, version primitive.ProtocolVersion) bool {
+	buf := &bytes.Buffer{}
+	if e2 := c.Encode(msg, buf, version); e2 != nil {
+		return true
+	}
+	n, e1 := c.EncodedLength(msg, version)
+	return e1 != nil || buf.Len() == n
+}
+
+//@ func lemmaLenAuthResponse
+//@   prop C03
+//@   ensures agree: result
+
+func lemmaLenAuthSuccess(c *authSuccessCodec, msg Message, version primitive.ProtocolVersion) bool {
+	buf := &bytes.Buffer{}
+	if e2 := c.Encode(msg, buf, version); e2 != nil {
+		return true
+	}
+	n, e1 := c.EncodedLength(msg, version)
+	return e1 != nil || buf.Len() == n
+}
+
+//@ func lemmaLenAuthSuccess
+//@   prop C03
+//@   ensures agree: result
+
+func lemmaLenAuthenticate(c *authenticateCodec, msg Message, version primitive.ProtocolVersion) bool {
+	buf := &bytes.Buffer{}
+	if e2 := c.Encode(msg, buf, version); e2 != nil {
+		return true
+	}
+	n, e1 := c.EncodedLength(msg, version)
+	return e1 != nil || buf.Len() == n
+}
+
+//@ func lemmaLenAuthenticate
+//@   prop C03
+//@   ensures agree: result
+
+
+func lemmaLenRevise(c *reviseCodec, msg Message, version primitive.ProtocolVersion) bool {
+	buf := &bytes.Buffer{}
+	if e2 := c.Encode(msg, buf, version); e2 != nil {
+		return true
+	}
+	n, e1 := c.EncodedLength(msg, version)
+	return e1 != nil || buf.Len() == n
+}
+
+//@ func lemmaLenRevise
+//@   prop C03
+//@   ensures agree: result
+
+
+
+func lemmaLenExecute(c *executeCodec, msg Message, version primitive.ProtocolVersion) bool {
+	buf := &bytes.Buffer{}
+	if e2 := c.Encode(msg, buf, version); e2 != nil {
+		return true
+	}
+	n, e1 := c.EncodedLength(msg, version)
+	return e1 != nil || buf.Len() == n
+}
+
+//@ func lemmaLenExecute
+//@   prop C03
+//@   ensures agree: result
+
+func lemmaLenOptions(c *optionsCodec, msg Message, version primitive.ProtocolVersion) bool {
+	buf := &bytes.Buffer{}
+	if e2 := c.Encode(msg, buf, version); e2 != nil {
+		return true
+	}
+	n, e1 := c.EncodedLength(msg, version)
+	return e1 != nil || buf.Len() == n
+}
+
+//@ func lemmaLenOptions
+//@   prop C03
+//@   ensures agree: result
+
+func lemmaLenPrepare(c *prepareCodec, msg Message, version primitive.ProtocolVersion) bool {
+	buf := &bytes.Buffer{}
+	if e2 := c.Encode(msg, buf, version); e2 != nil {
+		return true
+	}
+	n, e1 := c.EncodedLength(msg, version)
+	return e1 != nil || buf.Len() == n
+}
+
+//@ func lemmaLenPrepare
+//@   prop C03
+//@   ensures agree: result
+
+func lemmaLenQuery(c *queryCodec, msg Message, version primitive.ProtocolVersion) bool {
+	buf := &bytes.Buffer{}
+	if e2 := c.Encode(msg, buf, version); e2 != nil {
+		return true
+	}
+	n, e1 := c.EncodedLength(msg, version)
+	return e1 != nil || buf.Len() == n
+}
+
+//@ func lemmaLenQuery
+//@   prop C03
+//@   ensures agree: result
+
+func lemmaLenReady(c *readyCodec, msg Message, version primitive.ProtocolVersion) bool {
+	buf := &bytes.Buffer{}
+	if e2 := c.Encode(msg, buf, version); e2 != nil {
+		return true
+	}
+	n, e1 := c.EncodedLength(msg, version)
+	return e1 != nil || buf.Len() == n
+}
+
+//@ func lemmaLenReady
+//@   prop C03
+//@   ensures agree: result
+
+
+
+func lemmaLenStartup(c *startupCodec, msg Message, version primitive.ProtocolVersion) bool {
+	buf := &bytes.Buffer{}
+	if e2 := c.Encode(msg, buf, version); e2 != nil {
+		return true
+	}
+	n, e1 := c.EncodedLength(msg, version)
+	return e1 != nil || buf.Len() == n
+}
+
+//@ func lemmaLenStartup
+//@   prop C03
+//@   ensures agree: result
+
+func lemmaLenSupported(c *supportedCodec, msg Message, version primitive.ProtocolVersion) bool {
+	buf := &bytes.Buffer{}
+	if e2 := c.Encode(msg, buf, version); e2 != nil {
+		return true
+	}
+	n, e1 := c.EncodedLength(msg, version)
+	return e1 != nil || buf.Len() == n
+}
+
+//@ func lemmaLenSupported
+//@   prop C03
+//@   ensures agree: result
